@@ -907,15 +907,22 @@ def cts_sort_hint(E, vars):
         "other-rows-of-tree2": z3.ForAll([r], z3.Implies(z3.And(in2, z3.Not(linked)), z3.And(prow(r) >= n1, prow(r) < m, step))),
         "depths-nonnegative": z3.ForAll([r], z3.Implies(z3.And(r >= 0, r < m), sdepth(r) >= 0)),
     }
-    hyp = [full["sizes"], derived["row-index-arithmetic"], derived["second-parent-table/depths"]] + [f for nm, f in full.items() if nm.startswith("second-parent-table/")] + ranges + [cts_pre(E, o, "well-formed-inputs")] + defs
+    wf1 = _wf(o["tree1"], root1, depth1)
+    ptab = [full["second-parent-table/root"], full["second-parent-table/parents"], derived["second-parent-table/depths"]]
+    arith = [full["sizes"], derived["row-index-arithmetic"]] + ranges
     j2 = z3.Int("cs_j")
     sd2nn = z3.ForAll([j2], z3.Implies(z3.And(j2 >= 0, j2 < n2), sd2(j2) >= 0))
     prove_from(E, "cat_tree/step/depth/second-tree-depths-nonnegative", [full["second-parent-table/root"], derived["second-parent-table/depths"]], sd2nn)
+    needs = {  # every case from the few facts it rests on
+        "tree1-depths": [defs[1], wf1],
+        "tree1-rows": defs + [wf1],
+        "relinked-rows": defs + arith + ptab + [wf1],
+        "other-rows-of-tree2": defs + arith + ptab,
+        "depths-nonnegative": [defs[1], wf1, sd2nn] + arith,
+    }
     for nm, f in cases.items():
-        if nm == "depths-nonnegative":
-            prove_from(E, f"cat_tree/step/depth/{nm}", [cases["tree1-depths"], sd2nn, full["sizes"], derived["row-index-arithmetic"], cases["tree1-depths"]] + ranges + defs[1:], f)
-        else:
-            prove_from(E, f"cat_tree/step/depth/{nm}", hyp, f)
+        prove_from(E, f"cat_tree/step/depth/{nm}", needs[nm], f)
+    hyp = defs + [wf1]
     for w in TREE_PRE:
         hy = (list(cases.values()) + [full["sizes"], root1 >= 0, root1 < n1, sdepth(root1) == 0]) if w == "every-row-reaches-the-root" else (base + defs)
         if w == "every-row-reaches-the-root":
